@@ -145,7 +145,7 @@ def gen_tree(rng, root):
     return t
 
 
-def write_decoys(t):
+def write_decoys(t, root):
     """a search path is ordered: a file of the same name in a *later* -i directory is never the one that is spliced in; and a
     *directory* of that name in an earlier one is not an include file at all"""
     for k, (written, target) in enumerate(t.refs):
@@ -153,8 +153,8 @@ def write_decoys(t):
             cand = os.path.normpath(os.path.join(d, written))
             if cand == target:
                 break                                   # the file itself is found here: nothing earlier may look like it
-            if k % 2 == 0 and not os.path.lexists(cand) and cand not in t.files:
-                os.makedirs(cand)
+            if k % 2 == 0 and cand.startswith(os.path.normpath(root) + os.sep) and not os.path.lexists(cand) and cand not in t.files:
+                os.makedirs(cand)                       # (never outside the scratch tree: `../..` names can point above an include directory)
     if len(t.incdirs) != 2:
         return 0
     n = 0
@@ -195,7 +195,7 @@ def run_tree(asm, acc, seed, idx, ncli):
     try:
         t = gen_tree(rng, root)
         decoy = write_tree(t, root)
-        acc['ctr']['same_name_decoys_in_a_later_include_dir'] += write_decoys(t)
+        acc['ctr']['same_name_decoys_in_a_later_include_dir'] += write_decoys(t, root)
         flat_src = '\n'.join(t.flat) + '\n'
         srcdir = os.path.dirname(t.main)
         cwds = {'rootdir': srcdir, 'slash': '/', 'empty': os.path.join(root, 'empty'), 'decoy': decoy, 'ancestor': root}
